@@ -36,6 +36,7 @@ NODE_MENUS = (
 LIGHT_MENUS = (("HLight",), ("HLightDict",), ("HLight", "HLightDict"))
 EXC_ALL = ("SimFault", "SimRuntime", "SimCancel")
 EXC_EXCEPTION = ("SimFault", "SimRuntime")
+STRUCT_OPS = ("parent", "children", "del", "new")
 
 
 class Violation(Exception):
@@ -141,6 +142,10 @@ def gen_cfg(rng, prop, tier):
         cfg["excs"] = list(EXC_ALL)
         cfg["allow_nn"] = False
         cfg["observe_hooks"] = rng.random() < 0.5
+    elif prop == "C20":
+        cfg["profile"] = wchoice(rng, (("none", 50), ("once", 35), ("persist", 15)))
+        cfg["hooks"] = list(ALL_HOOKS)
+        cfg["excs"] = list(EXC_ALL)
     elif prop == "C04":
         cfg["profile"] = wchoice(rng, (("none", 60), ("once", 30), ("persist", 10)))
         cfg["hooks"] = list(ALL_HOOKS)
@@ -549,10 +554,12 @@ def build_world(cfg, world=None):
     return world, model
 
 
-def run(cfg, ops=None, rng=None, extra=None):
+def run(cfg, ops=None, rng=None, extra=None, pre_gen=None, handle=None):
     """Execute one run. `extra` is an optional per-step callback
     extra(step, world, model, res, op, status, exc) used by machines built on
-    top of this one (C04 query battery, C20 attribute store)."""
+    top of this one (C04 query battery, C20 attribute store); `pre_gen(rng,
+    model, cfg, step)` may return a non-structural operation to run instead of
+    a structural one and `handle(step, world, model, res, op)` executes it."""
     prop = cfg["prop"]
     res = Result()
     world, model = build_world(cfg)
@@ -567,15 +574,24 @@ def run(cfg, ops=None, rng=None, extra=None):
             if replay:
                 op = ops[step]
             else:
-                op = gen_op(rng, model, cfg, step)
+                op = pre_gen(rng, model, cfg, step) if pre_gen is not None else None
+                if op is None:
+                    op = gen_op(rng, model, cfg, step)
                 res.ops.append(op)
+            if op["op"] not in STRUCT_OPS:
+                res.steps += 1
+                res.bump("ops")
+                res.bump("op_" + op["op"])
+                h.update(repr((step, sorted(op.items()))).encode())
+                handle(step, world, model, res, op)
+                continue
             exp = expect_of(model, op)
             pre = model.snapshot()
             sig_shape = shape_sig(model, op_marks(op))
             try:
                 status, exc = exec_op(world, op)
             except Watchdog as wd:
-                raise Violation(prop if prop == "C01" else "GUARD", "hang", step, "hang:" + op["op"], str(wd))
+                raise Violation(prop if prop in ("C01", "C20") else "GUARD", "hang", step, "hang:" + op["op"], str(wd))
             newidx = None
             if op["op"] == "new":
                 # the constructed object exists from now on, whatever the outcome
@@ -641,8 +657,8 @@ def run(cfg, ops=None, rng=None, extra=None):
             if status == "ok":
                 apply_op(model, op, newidx)
             ideal = model.snapshot()
-            if prop == "C02":
-                c02_judge(step, op, exp, status, excname, exc, fired, post, ideal)
+            if prop in ("C02", "C20"):
+                c02_judge(step, op, exp, status, excname, exc, fired, post, ideal, prop)
             elif prop == "C03":
                 if status == "exc":
                     c03_judge(res, step, op, exp, pre, post, fired, excname)
@@ -664,13 +680,13 @@ def stable_hash(obj):
     return int.from_bytes(hashlib.blake2b(repr(obj).encode(), digest_size=8).digest(), "big")
 
 
-def c02_judge(step, op, exp, status, excname, exc, fired, post, ideal):
+def c02_judge(step, op, exp, status, excname, exc, fired, post, ideal, prop="C02"):
     if fired:
         return
     if status == "ok":
         if exp.exc is not None and exp.exc != "ANY":
             raise Violation(
-                "C02",
+                prop,
                 "not-refused",
                 step,
                 "not-refused:%s:%s" % (op["op"], exp.exc),
@@ -678,7 +694,7 @@ def c02_judge(step, op, exp, status, excname, exc, fired, post, ideal):
             )
         if post != ideal:
             raise Violation(
-                "C02",
+                prop,
                 "effect",
                 step,
                 "effect:" + op["op"],
@@ -687,7 +703,7 @@ def c02_judge(step, op, exp, status, excname, exc, fired, post, ideal):
         return
     if exp.exc is None:
         raise Violation(
-            "C02",
+            prop,
             "refused",
             step,
             "refused:%s:%s" % (op["op"], excname),
@@ -695,7 +711,7 @@ def c02_judge(step, op, exp, status, excname, exc, fired, post, ideal):
         )
     if exp.exc != "ANY" and excname != exp.exc:
         raise Violation(
-            "C02",
+            prop,
             "refusal-class",
             step,
             "refusal-class:%s:%s:%s" % (op["op"], exp.exc, excname),
